@@ -1179,6 +1179,44 @@ theorem refused_call_changes_nothing (disk : Bool) (t : Table) (op : Op) (e : Ex
     (h : (step disk t op).2 = .exc e) : (step disk t op).1 = t :=
   exc_unchanged disk t op e h
 
+/-! ### several live tables (frame property) -/
+
+/-- a call on one table leaves every other live table exactly as it was -/
+theorem step_left_preserves_right (d1 d2 : Bool) (p : Table × Table) (op : Op) :
+    (step2 d1 d2 p .left op).1.2 = p.2 ∧ (step2 d1 d2 p .right op).1.1 = p.1
+      ∧ (step2 d1 d2 p .left op).1.1 = (step d1 p.1 op).1 ∧ (step2 d1 d2 p .left op).2 = (step d1 p.1 op).2
+      ∧ (step2 d1 d2 p .right op).1.2 = (step d2 p.2 op).1
+      ∧ (step2 d1 d2 p .right op).2 = (step d2 p.2 op).2 :=
+  ⟨rfl, rfl, rfl, rfl, rfl, rfl⟩
+
+/-- an interleaved history over two live tables is, for each table, exactly the history of its own
+calls: same final table, same outputs (what the multi-table correspondence stream compares). -/
+theorem interleaving_projects (d1 d2 : Bool) (h : List (Side × Op)) : ∀ p : Table × Table,
+    (run2 d1 d2 p h).1.1 = (run d1 p.1 (proj .left h)).1
+      ∧ (run2 d1 d2 p h).1.2 = (run d2 p.2 (proj .right h)).1
+      ∧ proj .left (run2 d1 d2 p h).2 = (run d1 p.1 (proj .left h)).2
+      ∧ proj .right (run2 d1 d2 p h).2 = (run d2 p.2 (proj .right h)).2 := by
+  induction h with
+  | nil => intro p; exact ⟨rfl, rfl, rfl, rfl⟩
+  | cons x rest ih =>
+    intro p
+    obtain ⟨s, op⟩ := x
+    cases s with
+    | left =>
+      obtain ⟨a, b, c, d⟩ := ih (step2 d1 d2 p .left op).1
+      simp only [run2, proj, List.filterMap_cons, if_true, run, reduceCtorEq, if_false] at a b c d ⊢
+      exact ⟨a, b, by rw [c]; rfl, d⟩
+    | right =>
+      obtain ⟨a, b, c, d⟩ := ih (step2 d1 d2 p .right op).1
+      simp only [run2, proj, List.filterMap_cons, if_true, run, reduceCtorEq, if_false] at a b c d ⊢
+      exact ⟨a, b, c, by rw [d]; rfl⟩
+
+example : (run2 true false (Table.empty, Table.empty)
+    [(.left, .addMany [⟨[1], none, none, some (some [104])⟩]), (.right, .count),
+     (.right, .addMany [⟨[2], none, none, some (some [104])⟩]), (.left, .count),
+     (.right, .reopen), (.left, .count), (.right, .count)]).2.map (·.2)
+    = [.urls [[1]], .nat 0, .urls [[2]], .nat 1, .none, .nat 1, .nat 0] := by decide
+
 /-! ### non-vacuity: the theorems talk about histories that do something -/
 
 /-- a plain entry `AddURLInfo(u, None, None)` whose URL parses (hostname `[104]`) -/
